@@ -1498,7 +1498,7 @@ func (fc *fnCtx) execInstr(st *State, instr ssa.Instruction) {
 		fc.checkDeref(st, addr, l, x.Pos())
 		fc.writeLVal(st, l, fc.materialize(st, v))
 		if a, ok := x.Addr.(*ssa.Alloc); ok {
-			fc.afterStore(st, a)
+			fc.afterStore(st, a, x)
 		}
 	case *ssa.UnOp:
 		fc.execUnOp(st, x)
@@ -2279,18 +2279,34 @@ func (fc *fnCtx) execSlice(st *State, x *ssa.Slice) {
 }
 
 // afterStore handles `assert after var#k` ghost assertions.
-func (fc *fnCtx) afterStore(st *State, a *ssa.Alloc) {
+func (fc *fnCtx) afterStore(st *State, a *ssa.Alloc, store *ssa.Store) {
 	if fc.inline || fc.specMode || fc.contract == nil || len(fc.contract.Afters) == 0 {
 		return
 	}
 	t := fc.top
-	t.storeOrd[a]++
+	// the ordinal of an assignment is its rank among the assignments to that variable in SOURCE order
+	// (the order in which blocks are executed symbolically is an artefact)
+	ord := 0
+	if refs := a.Referrers(); refs != nil {
+		var stores []*ssa.Store
+		for _, r := range *refs {
+			if s, ok := r.(*ssa.Store); ok && s.Addr == a {
+				stores = append(stores, s)
+			}
+		}
+		sort.SliceStable(stores, func(i, j int) bool { return stores[i].Pos() < stores[j].Pos() })
+		for i, s := range stores {
+			if s == store {
+				ord = i + 1
+			}
+		}
+	}
 	// first store to a parameter cell is the parameter spill: not counted
 	for i, as := range fc.contract.Afters {
 		if as.Var != a.Comment {
 			continue
 		}
-		k := t.storeOrd[a]
+		k := ord
 		if fc.isParamCell(a) {
 			k--
 		}
